@@ -255,11 +255,11 @@ func cowValid(c int) bool { return c >= 4 }
 // ---- one worker ----
 
 type env struct {
-	dir, tdir, segPath, cowPath string
-	seg                         *os.File
-	rw, ro                      *impl
-	good, older                 []byte // G: the block as written last; P: the block before the last update
-	slotA                       int
+	dir, tdir, segPath, seg2Path, cowPath string
+	seg                                   *os.File
+	rw, ro                                *impl
+	good, older                           []byte // G: the block as written last; P: the block before the last update
+	slotA                                 int
 }
 
 func setup(dir string) *env {
@@ -269,6 +269,7 @@ func setup(dir string) *env {
 		panic(err)
 	}
 	e.segPath = filepath.Join(e.tdir, table+"-1.reg")
+	e.seg2Path = filepath.Join(e.tdir, table+"-2.reg")
 	// by reading hashmap.cow.go: "<segment path without .reg>_<block offset>.cow"
 	e.cowPath = filepath.Join(e.tdir, fmt.Sprintf("%s-1_%d.cow", table, blockNo*blockSz))
 	in := openRegistry(dir, true)
@@ -470,10 +471,7 @@ func work(run *ev.Run, cs []corruption, dir string) {
 				}
 				if errors.Is(err, context.DeadlineExceeded) {
 					viol("call-blocked", func() string { return "the call did not return within the 20 s hang guard" })
-					e.reopen()
-					continue
-				}
-				if !cowValid(cow) {
+				} else if !cowValid(cow) {
 					// checksum mismatch and no valid backup: an error, nothing served, nothing written
 					changed := !bytes.Equal(after, img)
 					switch {
@@ -539,6 +537,18 @@ func work(run *ev.Run, cs []corruption, dir string) {
 				if err != nil {
 					e.reopen() // do not let a failed call's leftovers (locks, handles) influence the next case
 				}
+				// keep the folder to the one segment file (+ backup): a corrupted block that looks full makes
+				// writes spill into a new segment file, which must not leak into the next case
+				if _, serr := os.Stat(e.seg2Path); serr == nil {
+					run.Add("calls_that_created_another_segment_file", 1)
+					ents, _ := os.ReadDir(e.tdir)
+					for _, en := range ents {
+						if p := filepath.Join(e.tdir, en.Name()); p != e.segPath && p != e.cowPath {
+							os.RemoveAll(p)
+						}
+					}
+					e.reopen()
+				}
 			}
 		}
 		if corruptionViolated {
@@ -548,15 +558,6 @@ func work(run *ev.Run, cs []corruption, dir string) {
 		if sampled < 1 && (region == "target-record" || region == "crc-field") {
 			sampled++
 			run.Sample(map[string]any{"corruption": fmt.Sprintf("%s off=%d len=%d", c.Kind, c.Off, c.Len), "region": region, "all_backup_situations": c.AllBackups, "any_call_violated": corruptionViolated})
-		}
-		// keep the folder to the one segment file (+ backup)
-		if ents, _ := os.ReadDir(e.tdir); len(ents) > 2 {
-			for _, en := range ents {
-				if p := filepath.Join(e.tdir, en.Name()); p != e.segPath && p != e.cowPath {
-					os.RemoveAll(p)
-				}
-			}
-			e.reopen()
 		}
 	}
 }
